@@ -20,9 +20,11 @@ fn alphabet_char(u: &mut Unstructured, alpha: u8) -> char {
     match alpha {
         0 => ['a', 'b'][u.int_in_range(0usize..=1).unwrap_or(0)],
         1 => (u.int_in_range(0x20u8..=0x7e).unwrap_or(b'a')) as char,
-        2 => ['é', 'ß', 'a', 'ö', 'z', '\u{7f}', '\u{80}', '\u{7ff}'][u.int_in_range(0usize..=7).unwrap_or(0)],
-        3 => ['€', '\u{800}', '\u{ffff}', 'a', '中', '\u{1}'][u.int_in_range(0usize..=5).unwrap_or(0)],
-        4 => ['😀', '\u{10000}', '\u{10ffff}', 'b', '\u{1}', '\u{f4}'][u.int_in_range(0usize..=5).unwrap_or(0)],
+        // every multi-byte alphabet holds characters that share all bytes but the last one, the first byte
+        // only, or nothing: common prefixes then end one, two or three bytes into a character
+        2 => ['é', 'ß', 'a', 'ö', 'z', '\u{7f}', '\u{80}', '\u{7ff}', 'è', '\u{81}'][u.int_in_range(0usize..=9).unwrap_or(0)],
+        3 => ['€', '\u{800}', '\u{ffff}', 'a', '中', '\u{1}', '₭', '\u{801}', '丮', '\u{2000}'][u.int_in_range(0usize..=9).unwrap_or(0)],
+        4 => ['😀', '\u{10000}', '\u{10ffff}', 'b', '\u{1}', '\u{f4}', '😁', '\u{10001}', '\u{1f640}', '\u{1d400}', '\u{10fffe}', '\u{11000}'][u.int_in_range(0usize..=11).unwrap_or(0)],
         _ => char::from_u32(u.int_in_range(1u32..=0x2ff).unwrap_or(b'a' as u32)).unwrap_or('a'),
     }
 }
